@@ -5,6 +5,11 @@ HERE = os.path.dirname(os.path.dirname(os.path.abspath(__file__)))
 ALL = ["C%02d" % i for i in range(1, 21)]
 # id -> (category, engine, technique, level text, level note, design ref)
 CHECKS = {
+ "C19": ("model_checking", "E1-choice",
+   "stateless choice-tree exploration of atom strings x every storage form of all four formats on the real readers",
+   "All 2955 strings of <=3 atoms over 14 atoms (XML specials, spaces, tab, LF, ]]>, Latin-1, BMP, astral) plus the empty and a 32767-character string are written in every storage form: xlsx shared/inline/formula string x entity/decimal/hex references/CDATA x plain/1-3 rich runs/phonetic runs x empty <si/> before or between x prefix; xlsb Isst (plain/rich/phonetic)/St/FmlaString; xls SST (plain/rich/ExtRst)/LABEL/STRING in both packings; ods content (text:s variants, literal spaces, spans, paragraphs) or attribute. Exact string equality, and the neighbouring string must be unaffected.",
+   "Trusted: the four writers; an empty-string cell may read as Empty; ods tab only in the attribute form.",
+   "DESIGN.md §2 C19"),
  "C02": ("model_checking", "E1-choice",
    "complete enumeration of all 2^32 RK words through the real decoder + stateless choice-tree exploration of BIFF8 sheets x equivalent record encodings",
    "All 4 294 967 296 RK words are decoded by the real rk decoder and compared with the MS-XLS 2.5.217 definition (value, sign extension, /100, Int/Float typing); end to end, sheets with <=2 (thorough 3) cells of ~75 kinds at three anchors (incl. row 65535 / column 255) are written with every exact encoding of each number (NUMBER, RK int/float, x100 forms, MULRK grouping), LABELSST/LABEL/BOOLERR/FORMULA(+STRING) and ignorable records, in v3 and v4 containers, and read back through worksheet_range.",
